@@ -4,6 +4,7 @@ CONSTANTS
   MaxSlot = 17
   MaxGen = 6
   MaxFaults = 1
+  MaxPersist = 1
   Variants = 2
   Kinds = {"att"}
   FaultKinds = {"crash", "crashafter"}
